@@ -222,7 +222,7 @@ def _sub_main():
 
 
 def _spawn(structs, n_pep, hash_seed):
-    env = dict(os.environ, PYTHONHASHSEED=str(hash_seed), PYTHONPATH="%s:%s" % (VERIF, "/repo"))
+    env = dict(os.environ, PYTHONHASHSEED=str(hash_seed), PYTHONPATH=":".join([VERIF, "/repo"] + [x for x in os.environ.get("PYTHONPATH", "").split(":") if x]))
     p = subprocess.Popen(["/venv/bin/python", "-c", "import harness.c16 as m; m._sub_main()"], cwd=VERIF, env=env,
                          stdin=subprocess.PIPE, stdout=subprocess.PIPE, stderr=subprocess.DEVNULL, text=True)
     p.stdin.write(json.dumps({"structs": structs, "n_pep": n_pep}))
